@@ -98,7 +98,7 @@ Example C03_nonvacuous :
   mul p 16 true two (Sec eps) = mkfx 6 false /\ mul p 16 false two (Sec two) = mkfx 262144 true /\
   eval (env2 true true (mul_pub 16 (Sec two))) rule_mul = true.
 Proof.
-  repeat split; try reflexivity.
+  repeat split; try (vm_compute; reflexivity).
   - intros _. exists 2. reflexivity.
   - intros H. discriminate H.
 Qed.
